@@ -88,10 +88,13 @@ func (r *Run) collect(sweeps []Sweep) {
 		re := regexp.MustCompile(sw.Pattern)
 		n := 0
 		for _, fn := range e.allFuncs() {
-			if !re.MatchString(fn.String()) || done[fn] {
+			if !re.MatchString(fn.String()) {
 				continue
 			}
 			n++
+			if done[fn] {
+				continue
+			}
 			done[fn] = true
 			fc := e.contracts.Funcs[fn.String()]
 			if fc != nil && (fc.Trusted || fc.Extern) {
@@ -124,6 +127,16 @@ func (r *Run) collect(sweeps []Sweep) {
 			for k, v := range u.sweep.Flags {
 				if _, ok := fc.Flags[k]; !ok {
 					fc.Flags[k] = v
+				}
+			}
+			if len(u.sweep.Requires) > 0 && len(fc.Requires) == 0 {
+				for i, src := range u.sweep.Requires {
+					ex, err := parseSpecExpr(src)
+					if err != nil {
+						r.addSynthetic("sweep#requires", "binding", "sweep requires clause parses", err.Error())
+						continue
+					}
+					fc.Requires = append(fc.Requires, &Clause{Name: fmt.Sprintf("sweep%d", i), Expr: ex, Src: src, File: "sweeps.json"})
 				}
 			}
 		}
